@@ -512,8 +512,12 @@ def run(ck):
         check_spec(ck, spec, batch)
         ck.count("stream:random")
         if ck.rng.random() < 0.5:
-            check_spec(ck, perturb(ck.rng, spec), batch)
-            ck.count("stream:perturbed-parameters")
+            pspec = perturb(ck.rng, spec)
+            if gen_scheme.full_rank_everywhere(pspec):
+                check_spec(ck, pspec, batch)
+                ck.count("stream:perturbed-parameters")
+            else:   # the statement quantifies over full-column-rank matrices only
+                ck.count("stream:perturbation-skipped(rank-deficient)")
         if i < 2:
             ck.sample({"spec": spec})
         if len(batch) >= 60:
